@@ -177,6 +177,14 @@ def run(rep, build, tier, seed):
                         if nm and mn is not None and mn > 2:
                             continue
                         cases.append(rc.Case("edge:%s:%s:%s:pre%d:post%d:%s" % (which, v, mn, len(pre), len(post), nm.strip()), "C", cfg + nm, pre + core + post))
+    # both edges at once: the start and end options (and their minima) must not influence each other
+    for sv in ("add", "force"):
+        for smn in (0, 2, 3):
+            for ev in ("ignore", "force", "remove"):
+                for emn in (0, 1, 2):
+                    for pre in (b"", b"\n\n\n"):
+                        cfg = "nl_start_of_file=%s\nnl_start_of_file_min=%d\nnl_end_of_file=%s\nnl_end_of_file_min=%d\nnl_max=3\n" % (sv, smn, ev, emn)
+                        cases.append(rc.Case("edges:%s:%d:%s:%d:pre%d" % (sv, smn, ev, emn, len(pre)), "C", cfg, pre + core))
     corr = rc.explore(rep, cases, oracle, tier, "render", extra=ask_nlmax)
     rep.sample({"generated_config_example": cases[0].cfg_text, "input_head": cases[0].data[:160].decode("latin1")})
     return rc.finish(rep, build, "C20", corr, "correspondence Model/Render.v <-> output.cpp (emitted code points)",
